@@ -245,6 +245,35 @@ def run_driver(run, tier, focus, drv, replay=None):
             if not any(k in ("free-while-os-holds", "completion-touches-freed-op", "result-on-dead-op") for (_, k, _) in v2):
                 raise vlib.ToolError("negative control: a free moved before its completion was accepted")
             run.note(drv + "_negative_control", "free moved before its final completion is rejected by the monitor")
+            # 5b. waker contract: the invocation of the latest waker removed / attributed to an older registration
+            wi = [i for i, o in enumerate(tl) if o["ev"] == "hwoken" and i > 0 and tl[i - 1]["ev"] == "result"
+                  and tl[i - 1]["op"] == o["op"]]
+            def judged(i):
+                # the submitter still holds the key at the end of that step: an hwchk of the op follows before
+                # its key is given back
+                for j in range(i + 1, len(tl)):
+                    if tl[j]["ev"] == "reset" or (tl[j]["ev"] == "htake" and tl[j]["op"] == tl[i]["op"]):
+                        return False
+                    if tl[j]["ev"] == "hwchk" and tl[j]["op"] == tl[i]["op"]:
+                        return True
+                return False
+            wi = [i for i in wi if judged(i)]
+            if not wi:
+                raise vlib.ToolError("negative control: no waker invocation right after a stored result in the trace")
+            i = wi[0]
+            cut = i + 40
+            nxt = [j for j in range(i + 1, len(tl)) if tl[j]["ev"] == "reset"]
+            if nxt:
+                cut = max(cut, nxt[0])
+            for name, bad, want in (("removed", tl[:i] + tl[i + 1:cut], "waiter-not-woken"),
+                                    ("stale", tl[:i] + [dict(tl[i], a=tl[i]["a"] + 7)] + tl[i + 1:cut], "stale-waker-woken")):
+                with open(badp, "w") as f:
+                    for o in bad:
+                        f.write(json.dumps(o) + "\n")
+                v3, _ = validate(badp)
+                if not any(k == want for (_, k, _) in v3):
+                    raise vlib.ToolError("negative control: waker invocation %s was accepted (wanted %s, got %s)" % (name, want, v3[:3]))
+            run.note(drv + "_negative_control_waker", "a missing or stale waker invocation after a stored result is rejected by the monitor")
         run.assumptions += ["the kernel is the environment: completions are caused by the harness (pipe writes, connects, gates)",
                             "sequentially consistent single driver thread plus pool threads; byte-level heap effects are not observed, only ownership events"]
     finally:
